@@ -1,6 +1,11 @@
 package nbns
 
-import "testing"
+import (
+	"reflect"
+	"testing"
+
+	"manticoreverif/ref/dns"
+)
 
 // RFC 1001 section 14.1: "FRED" -> EGFCEFEECACACACACACACACACACACACA
 func TestFRED(t *testing.T) {
@@ -17,5 +22,22 @@ func TestFRED(t *testing.T) {
 	w[0] = '*'
 	if g, _ := FirstLevel(w); g != "CKAAAAAAAAAAAAAAAAAAAAAAAAAAAAAA" {
 		t.Fatalf("%q", g)
+	}
+}
+
+// the scope is kept label by label: one label "corp.example" is not the two labels "corp", "example"
+func TestScopeLabels(t *testing.T) {
+	enc, _ := FirstLevel([]byte("HOST"))
+	two, err := FromLabels(dns.Name{[]byte(enc), []byte("corp"), []byte("example")})
+	if err != nil || !reflect.DeepEqual(two.ScopeLabels, []string{"corp", "example"}) || two.Scope != "corp.example" || string(two.Raw) != "HOST            " {
+		t.Fatalf("%+v %v", two, err)
+	}
+	one, err := FromLabels(dns.Name{[]byte(enc), []byte("corp.example")})
+	if err != nil || !reflect.DeepEqual(one.ScopeLabels, []string{"corp.example"}) {
+		t.Fatalf("%+v %v", one, err)
+	}
+	none, err := FromLabels(dns.Name{[]byte(enc)})
+	if err != nil || len(none.ScopeLabels) != 0 || none.Scope != "" {
+		t.Fatalf("%+v %v", none, err)
 	}
 }
